@@ -254,3 +254,45 @@ def canDisplay (enc : Encoder) (s : Sim) (r : Rune) (checkFallbacks : Bool) : Bo
 
 end Sim
 end Tcell
+
+namespace Tcell
+
+/-- the operation language of draw histories on a SimulationScreen: SetContent, Fill, Show, Sync, SetSize, ShowCursor,
+InjectKey, InjectMouse exactly as the `sim` engine's case lines S F W N Z C K M are executed by `Driver.Sim.stepOp`, plus
+the per-cell steps of `LockRegion` (screen.go:424 loops `LockCell` / `UnlockCell` of the C08 buffer over the region;
+not generated by the engine, covered by the proof) -/
+inductive SimOp where
+  | setContent (x y : Int) (mainc : Rune) (combc : List Rune) (style : Style)
+  | fill (r : Rune) (style : Style)
+  | lockCell (x y : Int)
+  | unlockCell (x y : Int)
+  | present
+  | sync
+  | setSize (w h : Int)
+  | setCursor (x y : Int)
+  | injectKey (k : Int) (r : Rune) (mod : Int)
+  | injectMouse (x y btn mod : Int)
+deriving Repr
+
+/-- `Fill` "doesn't support … characters with a width larger than one" (cell.go:218-222, it stores width 1 whatever the
+rune): a history is within the API contract when every Fill rune is one column wide -/
+def SimOp.ok (rw : Rune → Int) : SimOp → Prop
+  | .fill r _ => rw r = 1
+  | _ => True
+
+def Sim.stepS (rw : Rune → Int) (v : SimVariant) (enc : Encoder) (s : Sim) : SimOp → Sim
+  | .setContent x y m c st => { s with back := s.back.setContent rw x y m c st }
+  | .fill r st => { s with back := s.back.fill r st }
+  | .lockCell x y => { s with back := s.back.lockCell x y }
+  | .unlockCell x y => { s with back := s.back.unlockCell x y }
+  | .present => s.showScr v enc
+  | .sync => s.sync v enc
+  | .setSize w h => s.setSize v w h
+  | .setCursor x y => s.setCursor x y
+  | .injectKey k r m => s.injectKey k r m
+  | .injectMouse x y b m => s.injectMouse x y b m
+
+def Sim.runS (rw : Rune → Int) (v : SimVariant) (enc : Encoder) (s : Sim) (ops : List SimOp) : Sim :=
+  ops.foldl (Sim.stepS rw v enc) s
+
+end Tcell
